@@ -541,9 +541,9 @@ thm("C03", ["C03", "C03M", "C07V"], ["C12_vec_unaligned_paths", "C07_vec128_bloc
             "C03_mantis_spec", "C03_mantis_impl", "crypt_flip", "C02_swap_enc_is_dec"])
 thm("C04", ["C04"], ["C04_skinny128", "C04_skinny64"])
 VEC_INC = ["C05_v128c_increment", "C05_v256c_increment", "C05_v64c_increment", "C05_vmc_increment",
-           "C06_vec128_keystream", "C06_vec256_keystream", "C06_vec64_keystream"]
-thm("C05", ["C05", "C06", "C05V", "C06V"], ["C05_stream", "C05_init", "C05_involution", "C05_calls", "C05_C06_instances"] + VEC_INC)
-thm("C06", ["C06", "C05V", "C06V"], ["C06_ctr", "C06_step", "C06_init", "C05_C06_instances"] + VEC_INC)
+           "C06_vec128_keystream", "C06_vec256_keystream", "C06_vec64_keystream", "C06_mantis_vec128_keystream"]
+thm("C05", ["C05", "C06", "C05V", "C06V", "C07M"], ["C05_stream", "C05_init", "C05_involution", "C05_calls", "C05_C06_instances"] + VEC_INC)
+thm("C06", ["C06", "C05V", "C06V", "C07M"], ["C06_ctr", "C06_step", "C06_init", "C05_C06_instances"] + VEC_INC)
 def search_c13(run, tier, rng):
     """a C13 theorem no longer checks: (1) the emulated-CPU matrix at full size against the real code;
     (2) the generated probe model against the architectural specification (covers XCR0, which cannot be emulated)"""
@@ -563,7 +563,7 @@ thm("C14", ["C14"], ["C14_no_fault", "C14_failed_call_changes_nothing", "C14_nul
 thm("C15", ["C14"], ["C15_balanced", "C15_single_owner", "C15_all_released", "C15_cleanup", "C15_cleanup_idempotent", "C14_no_fault", "C14_inert_object"])
 thm("C16", ["C14"], ["C16_alloc_failure", "C16_init_success", "C16_then_inert", "C14_no_fault"])
 thm("C17", ["C14"], ["C17_wiped_before_free", "C17_source_sizes", "SkinnyVerif.Api.factsSizes_wipeOK"])
-thm("C02", ["C02", "C10", "C07M"], ["C07_mantis_vec128_block", "C07_mantis_vec128_spec", "C02_mantis", "C02_swap_modes", "C02_swap_enc_is_dec", "C02_swap_dec_is_enc", "C02_crypt_of_keys", "mantisPieces", "mantisKeys", "C10_mantis_set_key"])
+thm("C02", ["C02", "C10", "C07M"], ["C07_mantis_vec128_block", "C07_mantis_vec128_spec", "C06_mantis_vec128_keystream", "C02_mantis", "C02_swap_modes", "C02_swap_enc_is_dec", "C02_swap_dec_is_enc", "C02_crypt_of_keys", "mantisPieces", "mantisKeys", "C10_mantis_set_key"])
 thm("C07", ["C07", "C07V"], ["C07_skinny128", "C07_skinny64", "parallelBlocks_eq_ecb", "ecb_length", "C07_parallel_size",
             "C07_vec128_block", "C07_vec128_spec", "vecEnc4_block", "vecDec4_block",
             "C07_vec256_block", "C07_vec256_spec", "vecEnc8_block", "vecDec8_block",
